@@ -3,9 +3,9 @@ package main
 import (
 	"fmt"
 	"go/constant"
-	"strconv"
 	"go/types"
 	"sort"
+	"strconv"
 	"strings"
 
 	"golang.org/x/tools/go/ssa"
@@ -13,20 +13,21 @@ import (
 
 // SpecEnv translates spec expressions into SMT terms.
 type SpecEnv struct {
-	c           *Ctx
-	fr          *frame
-	vars        map[string]Val
-	st          *State
-	old         *State
-	oldAlloc    string
-	pkg         *types.Package
-	results     []Val
-	resultNames []string
-	loop        *loopInfo
-	heapParams  map[string]bool // when translating a spec function body: heaps used
-	inSpecFn    string
-	curInst     *specInst
-	err         []string
+	c             *Ctx
+	fr            *frame
+	vars          map[string]Val
+	st            *State
+	old           *State
+	oldAlloc      string
+	pkg           *types.Package
+	results       []Val
+	resultNames   []string
+	loop          *loopInfo
+	heapParams    map[string]bool // when translating a spec function body: heaps used
+	inSpecFn      string
+	paramsAtEntry bool // postconditions: a parameter name denotes the argument the caller passed
+	curInst       *specInst
+	err           []string
 }
 
 var tInt = types.Typ[types.Int]
@@ -230,6 +231,14 @@ func (e *SpecEnv) lookupIdent(name string) (Val, bool) {
 				return e.fr.vals[fv], true
 			}
 		}
+		if e.paramsAtEntry {
+			// In a postcondition a parameter stands for what the caller passed, also when the body
+			// reassigns it or takes its address (binary.Write(w, order, &point)): otherwise a body
+			// that overwrites the parameter before using it satisfies "wrote point" trivially.
+			if v, ok := e.fr.params[name]; ok {
+				return v, true
+			}
+		}
 		if e.st == e.fr.entry && e.st != nil {
 			// evaluation in the entry state (old(...)): a parameter denotes its entry value even
 			// when it lives in a memory cell that the function body fills in later
@@ -293,6 +302,18 @@ func (e *SpecEnv) lookupIdent(name string) (Val, bool) {
 	switch name {
 	case "alloc0":
 		return Val{T: "alloc0", Ty: tInt}, true
+	}
+	// last resort: a package-level function used as a value (e.g. the readers stored in a registry)
+	if e.pkg != nil {
+		if o := e.pkg.Scope().Lookup(name); o != nil {
+			if _, ok := o.(*types.Func); ok {
+				if sp := c.prog.SSA.Package(e.pkg); sp != nil {
+					if fn := sp.Func(name); fn != nil {
+						return Val{T: c.funcID(fn), Ty: fn.Type()}, true
+					}
+				}
+			}
+		}
 	}
 	return Val{}, false
 }
